@@ -17,6 +17,7 @@ static size_t vx_bufsize;
 static unsigned vx_codes; static uint8_t vx_code; static bool vx_code_patched; static size_t vx_code_at;
 static unsigned vx_patches; static size_t vx_patch_at; static uint32_t vx_patch_val;
 static unsigned vx_scalars; static uint64_t vx_scalar; static int vx_scalar_width;
+static uint8_t vx_subtype;
 static unsigned vx_flushes, vx_terminators, vx_names; static size_t vx_name_index;
 static void vx_push_byte(uint8_t b) { (void)b; vx_bufsize++; }
 static void vx_put_le(uint64_t v, int width) { vx_scalars++; vx_scalar = v; vx_scalar_width = width; vx_bufsize += (size_t)width; }
@@ -33,6 +34,8 @@ static uint64_t vx_div_nano_u(uint64_t v) { uint64_t q = nondet_u64(); __CPROVER
 /*@FUNC visit_end_object@*/
 /*@FUNC visit_end_array@*/
 /*@FUNC visit_key@*/
+/*@FUNC visit_byte_string@*/
+/*@FUNC visit_byte_string_tagged@*/
 /*@FUNC visit_int64@*/
 /*@FUNC visit_uint64@*/
 #ifdef VX_CBMC
@@ -48,6 +51,8 @@ void h_visit_begin_array(void) { setup(); visit_begin_array(&vx_e, &vx_ec); }
 void h_visit_end_object(void) { setup(); visit_end_object(&vx_e, &vx_ec); }
 void h_visit_end_array(void) { setup(); visit_end_array(&vx_e, &vx_ec); }
 void h_visit_key(void) { setup(); visit_key(&vx_e, nondet_size()); }
+void h_visit_byte_string(void) { setup(); visit_byte_string(&vx_e, nondet_size(), &vx_ec); }
+void h_visit_byte_string_tagged(void) { setup(); visit_byte_string_tagged(&vx_e, nondet_size(), nondet_u64(), &vx_ec); }
 static uint8_t vx_other_tag(void) { uint8_t t = nondet_u8(); __CPROVER_assume(t != semantic_tag_epoch_second && t != semantic_tag_epoch_milli && t != semantic_tag_epoch_nano); return t; }
 void h_visit_int64_none(void) { setup(); visit_int64(&vx_e, nondet_i64(), vx_other_tag(), &vx_ec); }
 void h_visit_int64_epoch_second(void) { setup(); visit_int64(&vx_e, nondet_i64(), semantic_tag_epoch_second, &vx_ec); }
